@@ -2,6 +2,7 @@ package PVM
 
 import (
 	"bytes"
+	"math"
 
 	"github.com/New-JAMneration/JAM-Protocol/internal/service_account"
 	"github.com/New-JAMneration/JAM-Protocol/internal/types"
@@ -419,7 +420,7 @@ func transfer(input OmegaInput) (output OmegaOutput) {
 	}
 	// m
 	rawData := input.VM.Memory.Read(o, types.TransferMemoSize)
-	if accountD, accountExists := input.Addition.ResultContextX.PartialState.ServiceAccounts[types.ServiceID(d)]; !accountExists {
+	if accountD, accountExists := accountOfRegister(input.Addition.ResultContextX.PartialState.ServiceAccounts, d); !accountExists {
 		// not exist
 		input.VM.Registers[7] = WHO
 		return OmegaOutput{
@@ -499,8 +500,8 @@ func eject(input OmegaInput) (output OmegaOutput) {
 
 	serviceID := input.Addition.ResultContextX.ServiceID
 
-	accountD, accountExists := input.Addition.ResultContextX.PartialState.ServiceAccounts[types.ServiceID(d)]
-	if !(types.ServiceID(d) != serviceID && accountExists) {
+	accountD, accountExists := accountOfRegister(input.Addition.ResultContextX.PartialState.ServiceAccounts, d)
+	if !(d != uint64(serviceID) && accountExists) {
 		// bold{d} = panic => CONTINUE, WHO
 		input.VM.Registers[7] = WHO
 		return OmegaOutput{
@@ -897,6 +898,9 @@ func provide(input OmegaInput) (output OmegaOutput) {
 
 	// a = d[s*] or nil,  d = (x_u)_d
 	account, accountExists := input.Addition.ResultContextX.PartialState.ServiceAccounts[s]
+	if input.VM.Registers[7] != 0xffffffffffffffff && input.VM.Registers[7] > math.MaxUint32 {
+		accountExists = false // not a service identifier
+	}
 	if !accountExists {
 		// otherwise if a = nil
 		input.VM.Registers[7] = WHO
